@@ -137,7 +137,7 @@ def jobs(tier, seed):
             if sh == "A-CYC":
                 prm["L"] = 5
             if sh == "A-D4":
-                prm["const"] = {"4": 1, "5": 1}  # the two continuation arcs carry weight one: four symbolic residual weights
+                prm["const"] = {"4": 1, "5": 3, "6": 2}  # the continuation arcs carry constant weights (states 1 and 2 have different futures): four symbolic residual weights
                 prm["L"] = 3  # longest path has two symbols
             js = split_job(dict(case="ops", params=prm, timeout=900), bits)
             if quick and sh == "A-DAG2" and op == "determinize":
